@@ -10,7 +10,7 @@ for s in $LIST; do
   d=seeded/$s
   [ -f $d/patch.diff ] || continue
   CHECKS=$(python3 -c "import json;print(' '.join(json.load(open('$d/meta.json'))['detected_by_quick_checks']))")
-  if ! git -C /repo apply $d/patch.diff 2>/dev/null; then echo "$s  PATCH-DOES-NOT-APPLY"; MISSED=$((MISSED+1)); continue; fi
+  if ! git -C /repo apply /verif/$d/patch.diff 2>/dev/null; then echo "$s  PATCH-DOES-NOT-APPLY"; MISSED=$((MISSED+1)); continue; fi
   HIT=""
   for c in $CHECKS; do
     out=$(./check $c quick 2>&1); rc=$?
